@@ -110,11 +110,19 @@ Proof.
       unfold l0 in E. cbn [l_dec] in E. try rewrite Ed in E. discriminate.
 Qed.
 
+(* re-initialised: nothing declared, nothing arrived, nothing in transit, nothing to report *)
+Lemma qt_reinit_ledger t : qledger (qt_reinit t) /\ plain_quiet (qt_reinit t).
+Proof.
+  split.
+  - intros c Hc. unfold qt_reinit, l_reinit. cbn [qt_s qt_l s_sto s_act l_b l_decayed csum]. rewrite !cmp_zero. ring.
+  - intros _ c. unfold qt_reinit, l_reinit. cbn [qt_l l_decayed]. apply cmp_zero.
+Qed.
+
 (* every operation sequence: the invariant in every reachable state *)
 Definition qop_wet (o : qop) : Prop := match o with QPush v _ _ => wet v | _ => True end.
 Lemma qtank_do_ledger t o : qop_wet o -> qledger t /\ plain_quiet t -> qledger (fst (qtank_do t o)) /\ plain_quiet (fst (qtank_do t o)).
 Proof.
-  intros Hw [L Q]. destruct o as [v time f | q | v | ov | | T | | T]; cbn [qtank_do fst].
+  intros Hw [L Q]. destruct o as [v time f | q | v | ov | | T | | T |]; cbn [qtank_do fst].
   - split; [apply qt_push_ledger; assumption|].
     intros E c. unfold qt_push in *. destruct f; cbn [fst qt_l] in *; [apply Q; exact E|].
     unfold l_send_push in *. destruct (Qltb (vol v) eps); cbn [fst qt_l] in *; [apply Q; exact E|].
@@ -133,6 +141,7 @@ Proof.
   - apply qt_end_ledger; assumption.
   - split; assumption.
   - split; [exact L | exact Q].
+  - apply qt_reinit_ledger.
 Qed.
 
 Theorem qtank_run_ledger : forall ops t, Forall qop_wet ops -> qledger t /\ plain_quiet t ->
